@@ -45,6 +45,21 @@ func zzCluster(stores []*model.MC, labels []string, order []int) (Handler, []*zz
 	return Handler{nodes, New(buckets), "zz"}, conns
 }
 
+func zzDrain(out <-chan common.GetResponse, errs <-chan error) {
+	for out != nil || errs != nil {
+		select {
+		case _, ok := <-out:
+			if !ok {
+				out = nil
+			}
+		case _, ok := <-errs:
+			if !ok {
+				errs = nil
+			}
+		}
+	}
+}
+
 // ZZClusterSetGet: a set and a later get of the same (symbolic) key reach the same node, also
 // through a second handler built over its own connections with the nodes listed in another
 // order; the value comes back; no other node sees the key.
@@ -65,6 +80,21 @@ func ZZClusterSetGet() {
 	key := rt.Bytes("key", rt.Param("keylen", 2))
 	data := rt.Bytes("data", 2)
 	flags := rt.U32("flags")
+	if w := rt.Param("warm", 0); w > 0 {
+		// the connection that sets the key has looked other keys up before: the route of a key
+		// depends on the key and the node set only, not on what the connection did earlier
+		for r := 0; r < w; r++ {
+			// (a concrete key: its ring location is then concrete too -- a symbolic one would
+			// multiply the paths by the number of ring points)
+			other := []byte("other-key-0123456789")[:rt.Param("keylen", 2)]
+			other[0] = byte('a' + r)
+			zzDrain(h1.Get(common.GetRequest{Keys: [][]byte{append([]byte(nil), other...)}, Opaques: []uint32{7}, Quiet: []bool{false}}))
+		}
+		for j := range c1 {
+			c1[j].Writes = 0
+		}
+		rt.Reach("warmed")
+	}
 	err := h1.Set(common.SetRequest{Key: append([]byte(nil), key...), Data: append([]byte(nil), data...), Flags: flags})
 	rt.Reach("set-done")
 	rt.Assert("c19-set-succeeds", err == nil)
